@@ -20,7 +20,14 @@ def anomaly(line):
 
 
 def scenario_of(seg):
-    return {"steps": [l["ms"] if l.get("a") == "Deliver" else [{"item": l.get("item"), "t": -1, "v": 0}] for l in seg[1:]]}
+    def step(l):
+        if l.get("a") == "Deliver":
+            return l["ms"]
+        if l.get("a") == "Persist":
+            return [{"item": "persist", "t": -2, "v": 0}]
+        return [{"item": l.get("item"), "t": -1, "v": 0}]
+    # explicit: the store / restore points are part of the recorded scenario (the driver adds none of its own)
+    return {"steps": [step(l) for l in seg[1:]], "explicit": True}
 
 
 def validate(ctx, trace_path, via, label):
@@ -34,6 +41,10 @@ def validate(ctx, trace_path, via, label):
         line, seg = keep[b - 1], ctx.segment(keep, b)
         tags = ctx.last_tags.get(b, ["unconsumed"])
         pre = seg[-2]["post"] if len(seg) > 1 else {}
+        if line.get("a") == "Persist":
+            ctx.violation("persist:" + "+".join(tags), "storing and restoring the instrument states (serde round trip) changed the exchange-reported data held: %s -> %s [%s line %d]" % (
+                json.dumps(pre), json.dumps(line["post"]), label, b), {"via": via, "scenario": scenario_of(seg)})
+            continue
         if line.get("a") == "Touch":
             ctx.violation("touch:" + "+".join(tags), "recording a cancel request for %s changed the exchange-reported data held: %s -> %s [%s line %d]" % (
                 line.get("item"), json.dumps(pre.get(line.get("item"))), json.dumps(line["post"].get(line.get("item"))), label, b),
